@@ -74,7 +74,7 @@ func CommonExpl(id string) string {
 		if len(sc) == 1 && sc[0] == "" {
 			where = "the whole module"
 		}
-		out += " Cross-cutting rules (.x) within " + where + ": no nested short declaration hides a result that is read after the block; no errors.Wrap of an error that is nil on every path; results that can be nil without an error are tested before use, and no result is used on the path where its call failed; no in-place removal at a loop index followed by the next index; no slot count re-typed as an epoch count (or back) without slotsPerEpoch, no integer ratio converted to floating point afterwards; no slice parameter sorted in place; wait groups balance, no fan-out under an errgroup context, coalesced requests keyed by the request; a guard before a submit/sign/send of a collection asks for non-empty, not for more than some number of elements; a closure that runs later from inside a loop does not share a variable declared outside the loop and assigned inside it; an integer quotient of two run-time quantities is not used as a modulus without a clamp; in strategies no send, receive or select on a channel kept in a service field; wiring: no two functional options of a package store into the same parameters field, and a Service field with the name and type of a parameters field is that setting or a constant default, never a value computed from other settings; language and library semantics (rules/semantics.go): no empty slice with spare capacity stored anew on every trip round a loop and no `b := a[:0]` with both appended to, no view of an outer array variable kept per trip, no in-place arithmetic on a big number obtained from a parameter or getter, no 64-bit accessor of a big number outside its range test (uses that only feed logging/metrics excepted), no slice-to-array conversion, no Wrap of an Unwrap, semaphore weights are the constant 1, no order comparison of unsigned values re-typed as signed, no multi-character cutset for TrimLeft/TrimRight, no ParseUint/ParseInt with base 0, no deferred Release/Unlock inside a loop, no hash state summed on every trip without a reset, no sort of one of several slices filled side by side, no map keyed by a pointer to a plain value, one form (T or *T) per error type in errors.As targets, no channel of nil-able results closed by another goroutine while it is received from with a single-valued receive."
+		out += " Cross-cutting rules (.x) within " + where + ": no nested short declaration hides a result that is read after the block (loggers excepted); a memo table local to one call is keyed by all that the remembered value is computed from; no errors.Wrap of an error that is nil on every path; results that can be nil without an error are tested before use, and no result is used on the path where its call failed; no in-place removal at a loop index followed by the next index; no slot count re-typed as an epoch count (or back) without slotsPerEpoch, no integer ratio converted to floating point afterwards; no slice parameter sorted in place; wait groups balance, no fan-out under an errgroup context, coalesced requests keyed by the request; a guard before a submit/sign/send of a collection asks for non-empty, not for more than some number of elements; a closure that runs later from inside a loop does not share a variable declared outside the loop and assigned inside it; an integer quotient of two run-time quantities is not used as a modulus without a clamp; in strategies no send, receive or select on a channel kept in a service field; wiring: no two functional options of a package store into the same parameters field, and a Service field with the name and type of a parameters field is that setting or a constant default, never a value computed from other settings; language and library semantics (rules/semantics.go): no empty slice with spare capacity stored anew on every trip round a loop and no `b := a[:0]` with both appended to, no view of an outer array variable kept per trip, no in-place arithmetic on a big number obtained from a parameter or getter, no 64-bit accessor of a big number outside its range test (uses that only feed logging/metrics excepted), no slice-to-array conversion, no Wrap of an Unwrap, semaphore weights are the constant 1, no order comparison of unsigned values re-typed as signed, no multi-character cutset for TrimLeft/TrimRight, no ParseUint/ParseInt with base 0, no deferred Release/Unlock inside a loop, no hash state summed on every trip without a reset, no sort of one of several slices filled side by side, no map keyed by a pointer to a plain value, one form (T or *T) per error type in errors.As targets, no channel of nil-able results closed by another goroutine while it is received from with a single-valued receive."
 	}
 	if im := imports[id]; len(im) > 0 {
 		out += " Taken over (.y) from sibling properties that rely on the same code: " + strings.Join(im, ", ") + "."
@@ -106,6 +106,21 @@ func Common(id string, p *core.Prog, r *core.Report) {
 	}
 	if n == 0 {
 		r.Hold(id+".x", "no-shadowed-results", "", "no nested short declaration hides a variable that is read after the block, in the property's packages")
+	}
+
+	// a memo table local to one call remembers a function of its key: the miss branch computes from the key and from
+	// what is the same on every trip of the loop (the exact ones are replaced by the computation before the analysis,
+	// core/memo.go; what is left is a memo that hands a later element the value computed for an earlier one)
+	nMemo := 0
+	for _, pm := range p.PartialMemos(prefixes...) {
+		if id == "C19" && pm.Pkg != "util" && pm.Pkg != "." && pm.Pkg != "" {
+			continue
+		}
+		nMemo++
+		r.Violate(id+".x", pm.Pkg+"."+pm.Func+"|memo|"+pm.Map+"["+pm.Key+"]|keyed-by-all-it-is-computed-from", p.Pos(pm.Pos), "the value remembered in "+pm.Map+" under "+pm.Key+" is computed from "+strings.Join(pm.Culprits, ", ")+" as well, which changes from one trip of the loop to the next and is not part of the key: a later element with the same key is given the value computed for an earlier one")
+	}
+	if nMemo == 0 {
+		r.Hold(id+".x", "memo-tables-keyed-by-their-inputs", "", "no memo table local to a call remembers a value computed from more than its key, in the property's packages")
 	}
 
 	// the functions of the property's packages
@@ -672,6 +687,57 @@ func Common(id string, p *core.Prog, r *core.Report) {
 			}
 			h := innermostLoop(loops, mc.Block())
 			if h == nil {
+				// outside any loop: a goroutine started here reads a variable that this function assigns again afterwards,
+				// with nothing in between that waits for the goroutine — it sees either value (usually the later one)
+				var g *ssa.Go
+				for _, ref := range refs {
+					if x, ok := ref.(*ssa.Go); ok {
+						g = x
+					}
+				}
+				fn, _ := mc.Fn.(*ssa.Function)
+				if g == nil || fn == nil {
+					return
+				}
+				for i, bnd := range mc.Bindings {
+					al, ok := bnd.(*ssa.Alloc)
+					if !ok || al.Referrers() == nil || i >= len(fn.FreeVars) {
+						continue
+					}
+					reads := false
+					if fr := fn.FreeVars[i].Referrers(); fr != nil {
+						for _, ref := range *fr {
+							if u, ok := ref.(*ssa.UnOp); ok && u.Op == token.MUL {
+								reads = true
+							}
+						}
+					}
+					if !reads {
+						continue
+					}
+					for _, ref := range *al.Referrers() {
+						st, ok := ref.(*ssa.Store)
+						if !ok || st.Addr != ssa.Value(al) {
+							continue
+						}
+						isSync := func(x ssa.Instruction) bool {
+							switch y := x.(type) {
+							case *ssa.UnOp:
+								return y.Op == token.ARROW
+							case *ssa.Select:
+								return y.Blocking
+							case *ssa.Call:
+								return strings.HasSuffix(core.CalleeName(y.Common()), ".Wait")
+							}
+							return false
+						}
+						w := core.PathQuery{Fn: f, From: g, Target: func(x ssa.Instruction) bool { return x == ssa.Instruction(st) }, Avoid: isSync}.Find()
+						if w != nil {
+							r.Violate(id+".x", core.FnKey(f)+"|goroutine-reads-variable-assigned-after-start|"+al.Comment, p.Pos(g.Pos()), "the goroutine started here reads the variable "+al.Comment+", which this function assigns again at "+p.Pos(st.Pos())+" without waiting for the goroutine in between: the goroutine works with whichever value it happens to see (usually the later one)")
+							break
+						}
+					}
+				}
 				return
 			}
 			body := loops[h]
@@ -708,7 +774,7 @@ var imports = map[string][]string{
 	"C05": {"C06.g", "C09.e", "C07.i"},
 	"C04": {"C06.g", "C03.j", "C01.f", "C01.g", "C05.k", "C06.e", "C13.f"},
 	"C06": {"C05.k", "C14.f", "C15.c"},
-	"C12": {"C05.k"},
+	"C12": {"C05.k", "C10.s"},
 	"C08": {"C19.8"},
 	"C16": {"C11.i"},
 	"C07": {"C19.4"},
